@@ -19,6 +19,8 @@ fn main() {
     let cmd = args.get(1).map(|s| s.as_str()).unwrap_or("");
     match cmd {
         "gen-stats" => gen_stats(&args[2..]),
+        "setup" => std::process::exit(setup()),
+        "selftest-determinism" => std::process::exit(selftest_determinism(args.get(2).map(|s| s.as_str()).unwrap_or("quick"))),
         "check" => {
             let prop = args.get(2).cloned().unwrap_or_default();
             let tier = args
@@ -97,6 +99,111 @@ fn main() {
             eprintln!("usage: tsgsim <command>");
             std::process::exit(2);
         }
+    }
+}
+
+const PROPS: &[&str] = &["C04", "C09", "C11", "C12"];
+
+/// Acceptance tests of the seams themselves, run at set-up.
+fn setup() -> i32 {
+    simrun::install_quiet_panic_hook();
+    let mut bad = 0;
+    // 1. every query shape of the generator pool compiles against the grammar
+    for s in gen::SHAPES {
+        let text = format!("{}\n{{\n}}\n", s.text.replace(" @", " @_"));
+        if let Err(e) = simrun::load(&text) {
+            println!("HARNESS-ERROR query shape rejected: {} ({})", s.text, e);
+            bad += 1;
+        }
+    }
+    // 2. the entropy seam decides hash iteration order
+    let order = |seed: u64| entropy::with_hash_seed(seed, entropy::hash_order_probe).unwrap();
+    let a1 = order(11);
+    let a2 = order(11);
+    let distinct: std::collections::BTreeSet<String> = (1..40u64).map(order).collect();
+    if a1 != a2 || distinct.len() < 5 {
+        println!("HARNESS-ERROR getrandom interposition ineffective: same-seed equal={} distinct orders={}", a1 == a2, distinct.len());
+        bad += 1;
+    }
+    // 3. the allocator seam places syntax trees where the policy says
+    alloc::install();
+    for p in alloc::Policy::ALL {
+        alloc::begin_run(p, 7);
+        let tree = simrun::parse_python("x = f(1, 2)\ny = g(x)\nz = h(x, y)\n");
+        let id = tree.root_node().id();
+        if id < 0x2000_0000_0000 {
+            println!("HARNESS-ERROR tree not allocated in a simulated arena under {}", p.name());
+            bad += 1;
+        }
+        drop(tree);
+    }
+    alloc::begin_run(alloc::Policy::Split4G, 7);
+    let src = pysrc::gen_source(&mut rng::Rng::new(5), &pysrc::SrcCfg { min_stmts: 30, max_stmts: 30, ..Default::default() });
+    let tree = simrun::parse_python(&src);
+    let (n, c) = alloc::id_collisions(&tree);
+    if c == 0 {
+        println!("HARNESS-ERROR split-4G layout produced no low-32-bit id collision among {} nodes", n);
+        bad += 1;
+    }
+    drop(tree);
+    if bad == 0 {
+        println!("setup: seams verified ({} query shapes, {} hash orders, 5 layout policies, {} id collisions among {} nodes under split-4G)", gen::SHAPES.len(), distinct.len(), c, n);
+        0
+    } else {
+        2
+    }
+}
+
+/// Same seeds, different processes and shard counts: complete transcripts must be equal.
+fn selftest_determinism(tier: &str) -> i32 {
+    let exe = std::env::current_exe().expect("exe");
+    let scale = if tier == "thorough" { "100" } else { "12" };
+    let mut bad = 0;
+    for p in PROPS {
+        let mut seen: Vec<(String, String)> = Vec::new();
+        for (shards, seed) in [("1", "1"), ("4", "1"), ("16", "1"), ("7", "1"), ("16", "2"), ("3", "2")] {
+            let out = std::process::Command::new(&exe)
+                .args(["check", p, "quick"])
+                .env("VERIF_SHARDS", shards)
+                .env("VERIF_SEED", seed)
+                .env("VERIF_SCALE", scale)
+                .env("VERIF_NO_EVIDENCE", "1")
+                .output()
+                .expect("spawn");
+            let so = String::from_utf8_lossy(&out.stdout).to_string();
+            let tr = so
+                .lines()
+                .filter_map(|l| l.split("transcript=").nth(1))
+                .filter_map(|r| r.split_whitespace().next())
+                .last()
+                .unwrap_or("?")
+                .to_string();
+            if out.status.code() != Some(0) {
+                println!("HARNESS-ERROR {} exited {:?} under shards={} seed={}", p, out.status.code(), shards, seed);
+                bad += 1;
+            }
+            seen.push((seed.to_string(), tr));
+        }
+        for seed in ["1", "2"] {
+            let ts: std::collections::BTreeSet<&String> = seen.iter().filter(|s| s.0 == seed).map(|s| &s.1).collect();
+            if ts.len() != 1 || ts.iter().any(|t| t.as_str() == "?") {
+                println!("HARNESS-ERROR {} seed {}: transcripts differ across processes/shard counts: {:?}", p, seed, ts);
+                bad += 1;
+            } else {
+                println!("determinism {} seed={} transcript={} (1/4/16/7 or 16/3 shard processes)", p, seed, ts.iter().next().unwrap());
+            }
+        }
+        let t1: Vec<&String> = seen.iter().filter(|s| s.0 == "1").map(|s| &s.1).collect();
+        let t2: Vec<&String> = seen.iter().filter(|s| s.0 == "2").map(|s| &s.1).collect();
+        if t1[0] == t2[0] {
+            println!("HARNESS-ERROR {}: different seeds give the same transcript (seed ignored?)", p);
+            bad += 1;
+        }
+    }
+    if bad == 0 {
+        0
+    } else {
+        2
     }
 }
 
